@@ -31,6 +31,9 @@ func genC02(r *h.Rand, tier string) []h.Case {
 	var cs []h.Case
 	for i := 0; i < n; i++ {
 		d := pickDelims(r)
+		if i%6 == 5 {
+			d = pickHostileDelims(r)
+		}
 		src := genTemplateSrc(r, d, 3)
 		tags := []string{"valid-grammar"}
 		if i%2 == 1 {
@@ -42,6 +45,9 @@ func genC02(r *h.Rand, tier string) []h.Case {
 		}
 		if d.L != "" {
 			tags = append(tags, "custom-delims")
+		}
+		if i%6 == 5 {
+			tags = append(tags, "hostile-delims")
 		}
 		cs = append(cs, h.Case{Stream: "lex", Cmd: lexCmd(d, src), NonTrivial: len(src) > 8, Tags: tags})
 		if i%3 == 0 {
